@@ -242,6 +242,24 @@ def r4(tree, rep, tier):
     sums = a5common.explorations(tree, tier, rep)
     a5common.fill_extra(rep, sums)
     a5common.report(rep, "C16.R4", sums, ("silent-connection-kept", "responsive-connection-dropped"))
+    if any(getattr(s, "rtt_assumption_used", False) for s in sums.values()):
+        # the pong callback compares its argument with the ping interval, and the product decided that comparison assuming the argument
+        # is the round-trip time in the interval's unit (seconds, at most one interval): the producer must hand over exactly that
+        hp = tree.func(MGR, "Manager", "handle_pong")
+        stored = {t.id for a in ast.walk(hp) if isinstance(a, ast.Assign) and any(isinstance(c, ast.Call) and isinstance(c.func, ast.Attribute)
+                  and c.func.attr in ("pop", "get") for c in ast.walk(a.value)) or (isinstance(a, ast.Assign) and isinstance(a.value, ast.Subscript))
+                  for tt in a.targets for t in ast.walk(tt) if isinstance(t, ast.Name)}
+        calls = [c for c in ast.walk(hp) if isinstance(c, ast.Call) and isinstance(c.func, ast.Name) and c.func.id in stored and c.args]
+        ok = bool(calls)
+        for c in calls:
+            a = expand(hp, c.args[0], stop=tuple(stored))
+            ok = ok and isinstance(a, ast.BinOp) and isinstance(a.op, ast.Sub) and isinstance(a.left, ast.Call) \
+                and (dotted(a.left.func) or "").split(".")[-1] in ("seconds", "time", "monotonic") \
+                and isinstance(a.right, ast.Name) and a.right.id in stored
+        rep.check("C16.R4", "the pong callback weighs its argument against the ping interval: handle_pong hands it the plain elapsed time "
+                  "(now - start, in the clock's seconds), unscaled", ok, site(calls[0] if calls else hp, MGR), key="C16.R4:handle_pong:rtt-unit",
+                  what="the pong callback compares the round-trip time with the ping interval (seconds) but handle_pong passes %s: answered "
+                       "pings are not credited and a responsive peer is dropped" % (ast.unparse(calls[0].args[0])[:60] if calls else "?"))
     for envname, s in sums.items():
         n = s.obl.get("C16:expiry", 0)
         rep.check("C16.R4", "two-party environment '%s': %d timer expiries on a connection in use were examined" % (envname, n),
@@ -280,7 +298,11 @@ REWRITES = [
 # engine A5
 MUTANTS.append(Mutant("pong-credited-conditionally", MGR, "        def got_pong(_):\n            # ignoring \"ping_id\"\n            self._traffic.traffic_seen()",
                       "        def got_pong(rtt):\n            if rtt <= 2 * self._ping_interval:\n                self._traffic.traffic_seen()", "C16.R4",
-                      "a pong may be ignored (unit mix-up between producer and consumer of the round-trip time): a responsive peer is dropped"))
+                      "two cooperating sites: the producer reports the round-trip time in milliseconds, the consumer weighs it against the interval in seconds",
+                      also=((MGR, "                on_pong(self._reactor.seconds() - start)", "                on_pong(int(round((self._reactor.seconds() - start) * 1000)))"),)))
+REWRITES.append(Rewrite("pong-credited-within-two-intervals", MGR, "        def got_pong(_):\n            # ignoring \"ping_id\"\n            self._traffic.traffic_seen()",
+                        "        def got_pong(rtt):\n            if rtt <= 2 * self._ping_interval:\n                self._traffic.traffic_seen()",
+                        desc="a pong that took at most two intervals is credited: every pong of a peer answering within one interval is"))
 MUTANTS.append(Mutant("signal-needs-timer", MGR, "        if self._connection:\n            self._connection.disconnect()\n\n    def _send_ping_reset_timer",
                       "        if self._connection and self._timer is not None:\n            self._connection.disconnect()\n\n    def _send_ping_reset_timer", "C16.R4",
                       "when the reconnect signal fires the timer has just expired (_timer is None): the silent connection is never dropped"))
